@@ -58,7 +58,7 @@ package cache
 
 //@ func (*Target).gnmiUpdate
 //@   props C02 C03 C12 C14 C15
-//@   requires TargetWf(t) && NotiWf(n) && len(n.Update) >= 1 && n.Prefix != nil && n.Prefix.Target != "" && StoredWf(t) && CountersRegistered()
+//@   requires TargetWf(t) && NotiWf(n) && len(n.Update) >= 1 && n.Prefix != nil && n.Prefix.Target != "" && StoredWf(t) && CountersRegistered() && AllTVWf()
 //@   modifies ghost tstore, ghost treal, ghost intAdded, heap(ctree.Tree.leafBranch), t.sync
 //@   effect owed := ite(res0 != nil, owed ++ unit(res0), owed)
 //@   effect updSteps := updSteps + 1
@@ -149,6 +149,7 @@ package cache
 //@ func field Target.client (l)
 //@   requires l != nil && len(owed) >= 1 && l == first(owed)
 //@   effect owed := sub(owed, 1, len(owed))
+//@   effect wiped := WipedAfter(l)
 //@   note the feed callback is assumed not to modify cache, tree or metadata state
 
 //@ func (*Target).checkTimestamp
@@ -181,9 +182,9 @@ package cache
 
 //@ func (*Target).GnmiUpdate
 //@   props C03 C12 C14 C15 C02
-//@   requires TargetWf(t) && NotiWf(n) && n.Prefix != nil && n.Prefix.Target != "" && StoredWf(t) && CountersRegistered()
+//@   requires TargetWf(t) && NotiWf(n) && n.Prefix != nil && n.Prefix.Target != "" && StoredWf(t) && CountersRegistered() && AllTVWf()
 //@   requires len(owed) == 0 && Unstored(n)
-//@   modifies ghost tstore, ghost treal, ghost intAdded, ghost owed, ghost tsSeen, ghost updSteps, ghost delSteps, heap(ctree.Tree.leafBranch), t.sync, t.ts, n.Update, n.Delete
+//@   modifies ghost tstore, ghost treal, ghost intAdded, ghost owed, ghost tsSeen, ghost updSteps, ghost delSteps, ghost wiped, heap(ctree.Tree.leafBranch), t.sync, t.ts, n.Update, n.Delete
 //@   invariant 0: len(owed) == 0 && StoredWf(t) && n.Update == nil && n.Delete == nil && InputsWf(updates, deletes)
 //@     && updates == old(n.Update) && deletes == old(n.Delete) && updSteps == old(updSteps) + $i && delSteps == old(delSteps) && 0 <= $i && $i <= len(updates)
 //@   invariant 1: len(owed) == 0 && StoredWf(t) && n.Update == nil && n.Delete == nil && InputsWf(updates, deletes)
@@ -230,7 +231,7 @@ package cache
 
 //@ pred Kept(t *Target) := forall k PKey :: old(tstore[t.t][k]) != nil ==> tstore[t.t][k] == old(tstore[t.t][k])
 //@ pred OthersKept(t *Target) := forall u ref :: u != t.t ==> tstore[u] == old(tstore[u]) && treal[u] == old(treal[u])
-//@ pred Ready(t *Target) := TargetWf(t) && StoredWf(t) && CountersRegistered() && t.name != ""
+//@ pred Ready(t *Target) := TargetWf(t) && StoredWf(t) && CountersRegistered() && t.name != "" && AllTVWf()
 
 //@ func deleteNoti
 //@   props C14 C03 C12
@@ -248,15 +249,18 @@ package cache
 //@   ensures res0.Prefix != nil && res0.Prefix.Target == t && res0.Update[0].Val == v && res0.Timestamp == wrap64s(nowval)
 //@ func metaNotiBool
 //@   props C14 C15 C12
-//@   requires Now != nil
+//@   requires Now != nil && AllTVWf()
+//@   ensures AllTVWf()
 //@   ensures fresh(res0) && NotiWf(res0) && len(res0.Update) == 1 && len(res0.Delete) == 0 && !res0.Atomic && res0.Prefix != nil && res0.Prefix.Target == t
 //@ func metaNotiInt
 //@   props C14 C15 C12
-//@   requires Now != nil
+//@   requires Now != nil && AllTVWf()
+//@   ensures AllTVWf()
 //@   ensures fresh(res0) && NotiWf(res0) && len(res0.Update) == 1 && len(res0.Delete) == 0 && !res0.Atomic && res0.Prefix != nil && res0.Prefix.Target == t
 //@ func metaNotiStr
 //@   props C14 C15 C12
-//@   requires Now != nil
+//@   requires Now != nil && AllTVWf()
+//@   ensures AllTVWf()
 //@   ensures fresh(res0) && NotiWf(res0) && len(res0.Update) == 1 && len(res0.Delete) == 0 && !res0.Atomic && res0.Prefix != nil && res0.Prefix.Target == t
 
 //@ func metaValue
